@@ -406,6 +406,13 @@ pub fn oracle_tree<const N: usize>(c: &TreeCase) -> Viol {
             if h1 != h2 {
                 out.push(("C01", at("root hash differs from a freshly built tree with the same content")));
                 out.push(("C02", at("root hash differs from a freshly built tree with the same content")));
+                // the user-visible consequence: two replicas with identical content keep exchanging ranges
+                let d1 = diff(tc.serialise_page_ranges().unwrap(), f.serialise_page_ranges().unwrap()).len();
+                let d2 = diff(f.serialise_page_ranges().unwrap(), tc.serialise_page_ranges().unwrap()).len();
+                if d1 + d2 > 0 {
+                    out.push(("C08", at("diff against a freshly built tree with identical content is not empty")));
+                    out.push(("C06", at("a replica with this history never reports the root hash of a replica with the same content")));
+                }
             }
             if ranges_str(&tc) != ranges_str(&f) {
                 out.push(("C01", at("page ranges differ from a freshly built tree with the same content")));
@@ -477,6 +484,113 @@ pub fn oracle_tree<const N: usize>(c: &TreeCase) -> Viol {
         Err(_) => out.push(("C15", "a tree operation panicked".into())),
     }
     out
+}
+
+// ---------------------------------------------------------------------------------------------
+// default configuration: the crate's own SipHasher (default and seeded), the three constructors, and real key
+// types (Vec<u8>, String, [u8; 4]); compared among themselves and against the documented level rule
+struct DumpB<K> {
+    s: String,
+    levels_ok: bool,
+    hasher: merkle_search_tree::digest::siphash::SipHasher,
+    _k: std::marker::PhantomData<K>,
+}
+impl<'a, K: AsRef<[u8]> + std::hash::Hash> Visitor<'a, 16, K> for DumpB<K> {
+    fn visit_node(&mut self, n: &'a Node<16, K>) -> bool {
+        use std::fmt::Write;
+        write!(self.s, "{}={} ", hex(n.key().as_ref()), hex(n.value_hash().as_bytes())).unwrap();
+        true
+    }
+    fn visit_page(&mut self, p: &'a Page<16, K>, hp: bool) -> bool {
+        use merkle_search_tree::digest::Hasher;
+        use std::fmt::Write;
+        write!(self.s, "I{}:{}:{} ", p.level(), hp, p.hash().map(|h| hex(h.as_bytes())).unwrap_or_default()).unwrap();
+        for n in p.nodes() {
+            let d = Hasher::<16, K>::hash(&self.hasher, n.key());
+            if ref_level(d.as_bytes(), 16) != p.level() as u32 {
+                self.levels_ok = false;
+            }
+        }
+        true
+    }
+    fn post_visit_page(&mut self, _p: &'a Page<16, K>) -> bool {
+        self.s.push_str("O ");
+        true
+    }
+}
+fn default_cfg_for<K>(c: &TreeCase, kind: &str, mk: impl Fn(usize, &[u8]) -> K) -> Viol
+where
+    K: Clone + PartialOrd + AsRef<[u8]> + std::hash::Hash,
+{
+    use merkle_search_tree::builder::Builder;
+    use merkle_search_tree::digest::siphash::SipHasher;
+    use merkle_search_tree::MerkleSearchTree;
+    let mut out: Viol = vec![];
+    let seedk = [7u8; 16];
+    #[allow(deprecated)]
+    let mut trees: Vec<(&str, MerkleSearchTree<K, Vec<u8>>, SipHasher)> = vec![
+        ("default()", MerkleSearchTree::default(), SipHasher::default()),
+        ("Builder::default().build()", Builder::default().build(), SipHasher::default()),
+        ("new_with_hasher(SipHasher::default())", MerkleSearchTree::new_with_hasher(SipHasher::default()), SipHasher::default()),
+        ("Builder.with_hasher(seeded)", Builder::default().with_hasher(SipHasher::new(&seedk)).build(), SipHasher::new(&seedk)),
+        ("new_with_hasher(seeded)", MerkleSearchTree::new_with_hasher(SipHasher::new(&seedk)), SipHasher::new(&seedk)),
+    ];
+    for op in &c.ops {
+        for (_, t, _) in trees.iter_mut() {
+            match op {
+                Op::Hash => {
+                    let _ = t.root_hash();
+                }
+                Op::Upsert(k, v) => t.upsert(mk(*k, &c.keys[*k].bytes), v),
+            }
+        }
+    }
+    let mut dumps = vec![];
+    for (name, t, h) in trees.iter_mut() {
+        let rh = t.root_hash().clone();
+        let mut d = DumpB::<K> { s: String::new(), levels_ok: true, hasher: h.clone(), _k: Default::default() };
+        t.in_order_traversal(&mut d);
+        if !d.levels_ok {
+            out.push(("C14", format!("{kind} keys, {name}: a key sits on a page whose level is not the level derived from its SipHash digest (base 16)")));
+            out.push(("C18", format!("{kind} keys, {name}: level derivation differs from the documented rule under the crate's own hasher")));
+        }
+        let n1 = t.node_iter().count();
+        let asc = {
+            let ks: Vec<&K> = t.node_iter().map(|n| n.key()).collect();
+            ks.windows(2).all(|w| w[0] < w[1])
+        };
+        let want = final_content(&c.ops).len();
+        if !asc || n1 != want {
+            out.push(("C18", format!("{kind} keys, {name}: node_iter yields {n1} keys (expected {want}), ascending={asc}")));
+        }
+        dumps.push((name.to_string(), d.s, hex(rh.as_bytes())));
+    }
+    for grp in [&dumps[0..3], &dumps[3..5]] {
+        for w in grp.windows(2) {
+            if w[0].1 != w[1].1 || w[0].2 != w[1].2 {
+                out.push(("C18", format!("{kind} keys: constructors {} and {} give different trees/hashes for the same history", w[0].0, w[1].0)));
+            }
+        }
+    }
+    if dumps[0].2 == dumps[3].2 && final_content(&c.ops).len() > 0 {
+        out.push(("C18", format!("{kind} keys: seeded and default SipHasher give the same root hash: the seed is ignored")));
+    }
+    out
+}
+pub fn oracle_default_cfg(c: &TreeCase) -> Viol {
+    let r = catch_unwind(AssertUnwindSafe(|| {
+        let mut out = default_cfg_for::<Vec<u8>>(c, "Vec<u8>", |_, b| b.to_vec());
+        out.extend(default_cfg_for::<String>(c, "String", |_, b| hex(b)));
+        out.extend(default_cfg_for::<[u8; 4]>(c, "[u8; 4]", |i, _| (i as u32).to_be_bytes()));
+        out
+    }));
+    match r {
+        Ok(v) => v,
+        Err(_) => vec![
+            ("C15", "a tree operation panicked under the default configuration (real key types, SipHasher)".into()),
+            ("C18", "a tree operation panicked under the default configuration".into()),
+        ],
+    }
 }
 
 fn covered(k: u32, rs: &[(u32, u32)]) -> bool {
@@ -725,7 +839,11 @@ pub fn oracle_sync(c: &SyncCase) -> Viol {
                     }
                 }
             }
-            // every replica's incremental tree must equal a fresh build of its store (refinement)
+            // every replica's incremental tree must equal a fresh build of its store (refinement);
+            // large cases: only after pulls and at the end
+            if c.final_only && !matches!(e, Ev::Pull(_, _)) {
+                continue;
+            }
             for (i, rp) in reps.iter().enumerate() {
                 let mut f = new_tree::<16>(c.base);
                 for (k, v) in &rp.store {
